@@ -324,30 +324,95 @@ theorem mapM_zip_map {α β γ : Type} (f : α → β) (g : α × β → Except 
   | nil => rfl
   | cons a r ih => simp [List.mapM_cons, ih]
 
-/-- what `__setitem__` does with one entry of a collection value once the value has the indexed batch size:
-    `entry[idx] = value[key]` on the destination leaf, or on a fresh zero leaf for a key missing from the destination -/
-def entryWrite (td : TD) (ibs : Shape) (items : List Ix) (e : VEntry) : Except Err EntryWrite := do
-  let leafShape ← (match e.target with
-    | some j => match td.leaves[j]? with
-      | some feat => .ok (td.bs ++ feat)
-      | none => .error .runtime
-    | none => if hasPrefix ibs e.shape then .ok (td.bs ++ e.shape.drop ibs.length) else .error .runtime)
-  let w ← TorchSpec.setIndex leafShape items e.shape
-  pure { target := e.target, leafShape := leafShape, written := fun c => (w c).map (·.drop 0) }
-
-/-- `td[idx] = TensorDict(..., batch_size = indexed batch size)`: one `entry[idx] = value[key]` per key, nothing else -/
-theorem setitemColl_exact (td : TD) (items : List Ix) (R : IndexResult) (entries : List VEntry)
+/-- `__setitem__` with a collection value on an Ellipsis-free tuple torch accepts on the batch shape: the batch handling
+    `collPlan` against torch's result shape, then one `entryWriteK` per key -/
+theorem setitemColl_spec (td : TD) (items : List Ix) (R : IndexResult) (isDict : Bool) (vb : Shape) (entries : List VEntry)
     (hn : noEll items = true) (h : index td.bs items = .ok R) :
-    setitemColl td (.tuple items) false R.shape entries = entries.mapM (entryWrite td R.shape items) := by
+    setitemColl td (.tuple items) isDict vb entries =
+      (match collPlan isDict vb R.shape entries with
+       | .error e => .error e
+       | .ok (k, shapes) => (entries.zip shapes).mapM (fun (e, sh) => entryWriteK td R.shape items k e sh)) := by
   have hany : items.any (· = Ix.ell) = false := by
     simp only [noEll, List.all_eq_true, bne_iff_ne, ne_eq] at hn
     simpa using hn
   obtain ⟨hs, P, hw, hf⟩ := index_inv h
   have hc : checkIndexNdim (.tuple items) td.bs.length = .ok () := (checkIndexNdim_ok_iff items _).mpr hs
   have hb := getitemBatchSize_tuple td.bs items _ P R hn hw hf
-  simp only [setitemColl, hany, Bool.false_eq_true, if_false, bind, Except.bind, hc, hb, if_true, pure, Except.pure,
-    PyIndex.items]
-  rw [mapM_zip_map]
-  rfl
+  simp only [setitemColl, hany, Bool.false_eq_true, if_false, bind, Except.bind, hc, hb, PyIndex.items]
+  cases collPlan isDict vb R.shape entries with
+  | error e => rfl
+  | ok p => rfl
+
+end TdVerif.C03
+
+namespace TdVerif.C03
+open TorchSpec Td
+
+theorem collPlan_exact (ibs : Shape) (entries : List VEntry) :
+    collPlan false ibs ibs entries = .ok (0, entries.map (·.shape)) := by
+  simp [collPlan]
+
+theorem collPlan_dict (vb ibs : Shape) (entries : List VEntry) :
+    collPlan true vb ibs entries =
+      if entries.all (fun e => hasPrefix ibs e.shape) then .ok (0, entries.map (·.shape)) else .error .runtime := by
+  unfold collPlan
+  by_cases h : entries.all (fun e => hasPrefix ibs e.shape) = true <;> simp [h]
+
+/-- `value.expand(indexed_bs)`: the value's batch `vb` is a non-empty proper trailing part of `pre ++ vb` -/
+theorem collPlan_expand (pre vb : Shape) (entries : List VEntry) (hpre : pre ≠ []) (hvb : vb ≠ []) :
+    collPlan false vb (pre ++ vb) entries =
+      .ok (pre.length, entries.map (fun e => (pre ++ vb) ++ e.shape.drop vb.length)) := by
+  have h1 : vb ≠ pre ++ vb := by
+    intro h; have := congrArg List.length h; simp at this
+    exact hpre this
+  have h2 : vb.length ≠ 0 := by intro h; exact hvb (List.length_eq_zero_iff.mp h)
+  have h3 : (pre ++ vb).drop ((pre ++ vb).length - vb.length) = vb := by simp
+  simp only [collPlan, Bool.false_eq_true, if_false, h1, h2, h3, if_true]
+  simp
+
+/-- `value.batch_size = indexed_bs`: neither equal nor a trailing part -/
+theorem collPlan_reassign (vb ibs : Shape) (entries : List VEntry) (h1 : vb ≠ ibs)
+    (h2 : vb ≠ (if vb.length = 0 then ibs else ibs.drop (ibs.length - vb.length))) :
+    collPlan false vb ibs entries =
+      if entries.all (fun e => hasPrefix ibs e.shape) then .ok (0, entries.map (·.shape)) else .error .runtime := by
+  simp only [collPlan, Bool.false_eq_true, if_false, h1, h2]
+
+theorem zipWith_all_self (l : List Nat) : (List.zipWith (fun a b => a == b || a == 1) l l).all id = true := by
+  induction l with
+  | nil => rfl
+  | cons a r ih => simp [ih]
+
+/-- expanding the value on the left by the dims it lacks does not change whether torch can broadcast it -/
+theorem valueOk_expand_left (pre w out' : Shape) (hlen : w.length = out'.length) :
+    valueOk (pre ++ w) (pre ++ out') = valueOk w (pre ++ out') := by
+  have e1 : (pre ++ w).length - (pre ++ out').length = 0 := by simp; omega
+  have e2 : w.length - (pre ++ out').length = 0 := by simp; omega
+  simp only [valueOk, e1, e2, List.take_zero, List.all_nil, Bool.true_and, List.drop_zero, List.reverse_append]
+  have hl : w.reverse.length = out'.reverse.length := by simpa using hlen
+  rw [List.zipWith_append hl]
+  have hz : List.zipWith (fun a b => a == b || a == 1) w.reverse (out'.reverse ++ pre.reverse)
+      = List.zipWith (fun a b => a == b || a == 1) w.reverse out'.reverse := by
+    have := List.zipWith_append (f := fun (a b : Nat) => a == b || a == 1) (l₁ := w.reverse) (l₁' := [])
+      (l₂ := out'.reverse) (l₂' := pre.reverse) hl
+    simpa using this
+  rw [hz, List.all_append, zipWith_all_self, Bool.and_true]
+  congr 1
+  simp; omega
+
+/-- **the manual `expand` of `__setitem__` is torch's broadcast**: writing the left-expanded item `pre ++ w` and forgetting the
+    added coordinates is writing the original item `w` — same acceptance, same element at every position -/
+theorem setIndex_expand_left (dims : Shape) (items : List Ix) (pre w out' : Shape) (R' : IndexResult)
+    (h : index dims items = .ok R') (hshape : R'.shape = pre ++ out') (hlen : w.length = out'.length) :
+    (setIndex dims items (pre ++ w)).map (fun wr c => (wr c).map (·.drop pre.length)) = setIndex dims items w := by
+  simp only [setIndex, h, hshape, valueOk_expand_left pre w out' hlen]
+  split
+  · simp only [Except.map]
+    congr 1
+    funext c
+    simp only [Option.map_map]
+    congr 1
+    funext x
+    exact valueCoord_expand_left (pre ++ out') pre w x (by simp; omega)
+  · rfl
 
 end TdVerif.C03
